@@ -268,12 +268,20 @@ def long_lived(ctx, rng, d, g, every=211):
     early = ["http://purl.obolibrary.org/obo/GO_0032571", "https://identifiers.org/hgnc:1234", "hgnc" + d + "1234", "GO" + d + "1", "OBO" + d + "GO_1"]
     for q in early:
         core_queries(c, q)
+    probe.evaluated("long-lived-converter")
     with probe.monitor_mode():
         for i in range(70000):
-            c.compress(f"http://purl.obolibrary.org/obo/X_{i}")
-            if i % 7 == 0:
-                c.expand(f"x{d}{i}")
-                c.standardize_prefix(f"p{i}")
+            try:
+                c.compress(f"http://purl.obolibrary.org/obo/X_{i}")
+                if i % 7 == 0:
+                    c.expand(f"x{d}{i}")
+                    c.standardize_prefix(f"p{i}")
+            except Exception as e:  # noqa: BLE001
+                # the default call never raises (C08), however many strings the converter has seen (seed C08-W: a bounded
+                # memo that fails when it is first trimmed; until this guard the driver crashed: INCONCLUSIVE)
+                probe.violation(["C08"], "long-lived-converter", "default-call-raises-after-many-distinct-queries",
+                                distinct_queries_so_far=i, query=f"http://purl.obolibrary.org/obo/X_{i}", observed=e, delimiter=d)
+                break
     outcome_of(c.add_prefix, "GO", "http://purl.obolibrary.org/obo/GO_", ["gomf"], ["http://amigo.geneontology.org/amigo/term/GO:"])
     outcome_of(c.add_prefix, "hgnc", "https://bioregistry.io/hgnc:", None, ["https://identifiers.org/hgnc:"])
     outcome_of(c.add_prefix, "OBO", "http://purl.obolibrary.org/obo/", ["obo"], merge=True)
